@@ -62,6 +62,24 @@ def cases(ctx, n):
         out.append((stages.URIS[0], root, ctx.rng.choice(['', 'p_1']), t))
     return out
 
+def ns_cases(ctx, n):
+    """attribute names that ARE XML names but mean something to XML or lxml (xmlns puts the element in another or in no namespace), with
+    and without a value, on a block, a hierarchical element, a cell or an inline.  Oracle only: what an xmlns attribute does to the
+    namespaces of the tree after the serialise/re-parse step is not part of the model."""
+    out = []
+    for _ in range(n):
+        root = ctx.rng.choice(gen.ROOTS6)
+        t = gen.gen_doc(ctx.rng, root)
+        nm = ctx.rng.choice(['xmlns', 'xmlns', 'XMLNS', 'id', '_x', 'a.b', 'a-b', '\u03a9mega', 'xml', 'xmlnsx'])
+        at = '{' + nm + ctx.rng.choice(['', ' ', ' foo', ' http://x.y/z']) + '}'
+        if '{class' in t and ctx.rng.random() < 0.5:
+            t = t.replace('{class', at[:-1] + '|class', 1)
+        else:
+            t += '\n' + ctx.rng.choice(['P%s text', 'SEC%s 1 - Heading\n  text', 'TABLE\n  TR\n    TC%s\n      cell', 'a line with {{abbr%s an abbreviation}}',
+                                        'ITEMS\n  ITEM%s (a)\n    x', 'QUOTE%s\n  quoted']) % at + '\n'
+        out.append((stages.URIS[0], root, ctx.rng.choice(['', 'p_1']), t))
+    return out
+
 WITNESSES = [('act', 'SCHEDULES\n'), ('judgment', 'APPENDIXES x\n'), ('doc', 'a\x01b\n'), ('act', 'P{1 x} foo\n'), ('bill', 'P{a:b x} foo\n'),
              ('act', 'FOOTNOTE 1\n  x {{FOOTNOTE 1}}\n'), ('statement', 'ANNEXURE-A\n  x\n'), ('debateReport', 'x\n\x0e\ny\n')]
 
@@ -71,7 +89,7 @@ def correspondence(ctx):
     stages.stage_e2e(ctx, cs)
 
 def search(ctx, budget):
-    cs = list(getattr(ctx, '_docs', [])) + (cases(ctx, ctx.n(800, 60000) * (budget - 1)) if budget > 1 else [])
+    cs = list(getattr(ctx, '_docs', [])) + (cases(ctx, ctx.n(800, 60000) * (budget - 1)) if budget > 1 else []) + ns_cases(ctx, ctx.n(120, 4000) * budget)
     for c, r in zip(cs, impl.pmap(_oracle, cs, chunk=8)):
         ctx.evaluations += 1; ctx.count('oracle_' + r[0])
         if r[0] == 'bad':
